@@ -402,6 +402,13 @@ impl<'p> CoroutinePool<'p> {
                         std::cmp::Ordering::Less => suspender.suspend(),
                         //减少CPU在N个无任务的协程中空轮询
                         std::cmp::Ordering::Equal | std::cmp::Ordering::Greater => {
+                            #[cfg(feature = "verif")]
+                            if crate::verif::virtual_clock().is_some() {
+                                // virtual time: the nap is a clock step
+                                crate::verif::advance_virtual_clock(1_000_000);
+                                pool.reset_pop_fail_times();
+                                continue;
+                            }
                             pool.blocker.clone().block(Duration::from_millis(1));
                             pool.reset_pop_fail_times();
                         }
